@@ -18,6 +18,7 @@ CFG = dict(
              "stores, the first two into one store) => one table sum, no new object on the second ingest; mutants (one cell, one "
              "column name, two columns swapped, key reversed or extended) => another sum; some cases also through wrgl commit "
              "from a branch file (unchanged / rewritten permuted / changed). Tables as in C01 (0..600 rows, 1..6 columns). "
+             "two variants of every table of 3+ blocks under a forced worker schedule (gated store); "
              "distinct = distinct case text; non-trivial = at least two rows",
         trusted=["table sums are compared for equality / inequality only; the model compares tables structurally "
                  "(columns, key, row count, blocks)", "the mock object store is wrapped in a mutex"],
